@@ -362,6 +362,11 @@ var copyKinds = []copyKind{
 	{"令W = 【0，0】\nW#1 = A\nW#2 = A", []string{"W#1", "W#2"}},
 	{"令W = 【甲=0】\nW#“甲” = A\n令B = W#“甲”", []string{"W#“甲”", "B"}},
 	{"令B恒为A", []string{"B"}},
+	{"令W = 【0】\n以W（后增：A）", []string{"W#2"}},
+	{"令W = 【0】\n以W（前增：A）", []string{"W#1"}},
+	{"令W = 【甲=0】\n以W（写入：“乙”、A）", []string{"W#“乙”"}},
+	{"如何原样？\n    输入X\n    输出 X\n（原样：A），得到B", []string{"B"}},
+	{"令W = 【0】\n以W（后增：A），得到B", []string{"W#2"}},
 }
 
 // H_CopyThenMutate: bind other names from A, mutate through one holder
@@ -395,6 +400,43 @@ func H_CopyThenMutate() {
 	zv.Assert(err == nil, "program runs\n"+src)
 	zv.Assert(same(res, list(twins...)), "a change made through one variable is not visible through another\n"+src)
 	zv.Reach("done")
+}
+
+// H_ClassDefaults: the default value of a property (dictionary, nested list,
+// list) is copied into every object: changing it in place through one object
+// (method call, key / element assignment) is not visible through another
+// object, created before or after the change.
+func H_ClassDefaults() {
+	x := zv.Float64("X")
+	symIn = r.ElementMap{"X": value.NewNumber(x)}
+	change := []string{
+		"以甲之典（写入：“丑”、X）",
+		"甲之典#“子” = X",
+		"甲之典#“列”#1 = X",
+		"以甲之表（后增：X）",
+		"甲之表#1 = X",
+	}[zv.Choose(5)]
+	after := zv.Choose(2) == 1
+	src := "输入X\n定义T：\n    其典设为【子 = 1，列 = 【7】】\n    其表设为【1，2】\n令甲 = （新建T）\n"
+	if after {
+		src += change + "\n令乙 = （新建T）\n"
+	} else {
+		src += "令乙 = （新建T）\n" + change + "\n"
+	}
+	src += "输出 【乙之典之数目，乙之典#“子”，乙之典#“列”#1，乙之表之长度，乙之表#1】"
+	res, err, p := run(src)
+	zv.Assert(p == nil && err == nil, "class defaults: runs\n"+src)
+	a, ok := res.(*value.Array)
+	zv.Assert(ok && a.Length() == 5, "class defaults: result")
+	want := []float64{2, 1, 7, 2, 1}
+	same := true
+	for k, w := range want {
+		n, isN := a.GetValue()[k].(*value.Number)
+		if !isN || n.GetValue() != w {
+			same = false
+		}
+	}
+	zv.Assert(same, "a default property changed in place through one object is unchanged in another object\n"+src)
 }
 
 // H_LoopVariable: the loop variable holds a copy of the element.
